@@ -16,6 +16,7 @@ rename steps in one bundle, records again.  Nothing here judges the property.
 
 Document description (doc):
   tables  : [[tableId, [colId, ...]], ...]          Text columns, in creation order
+  holders : [[tableId, colId, type], ...]           the columns that hold dropdown conditions
   attrs   : [{name, charId, tableId, lookupColId}]  user-attribute rules (on the '*' resource)
   res     : [{tableId, colIds: [..]}]               ACL resources
   entries : [{kind: acl|dc|trig|trigc, self, choice, res (1-based; 0 = the '*' resource; acl only),
@@ -169,8 +170,9 @@ def doc_from_variant(variant, contexts, ntexts, tables=None):
         e["col"] = ("P%d" if not c["choice"] else "S%d" if c["choice"] == c["self"] else "R%d") % j
         e["ctype"] = (variant["reftype"] + c["choice"]) if c["choice"] else variant.get("plaintype", "Text")
       entries.append(e)
-  return {"tables": tables or [["U", ["X", "Z"]], ["T", ["X", "Y"]]], "attrs": variant["attrs"], "res": variant["res"],
-          "entries": entries}
+  holders = [[e["self"], e["col"], e["ctype"]] for e in entries if e["kind"] == "dc"]
+  return {"tables": tables or [["U", ["X", "Z"]], ["T", ["X", "Y"]]], "holders": holders,
+          "attrs": variant["attrs"], "res": variant["res"], "entries": entries}
 
 
 def inp_from_item(it):
@@ -259,13 +261,14 @@ class Doc(object):
     acts = []
     for t, cols in doc["tables"]:
       infos = [{"id": c, "type": "Text"} for c in cols]
-      for k, e in dcs:
-        if e["self"] == t:
-          info = {"id": e["col"], "type": e["ctype"]}
-          if not self.valid[e["txt"] - 1]:
-            # columns are created with widgetOptions as given (no parsing), as
-            # test_dropdown_condition_renames stores its invalid condition
-            info["widgetOptions"] = self.widget_options(e)
+      for ht, hc, htype in doc["holders"]:
+        if ht == t:
+          info = {"id": hc, "type": htype}
+          for k, e in dcs:
+            if (e["self"], e["col"]) == (ht, hc) and not self.valid[e["txt"] - 1]:
+              # columns are created with widgetOptions as given (no parsing), as
+              # test_dropdown_condition_renames stores its invalid condition
+              info["widgetOptions"] = self.widget_options(e)
           infos.append(info)
       acts.append(["AddTable", t, infos])
     adapter.apply(self.eng, acts)
@@ -552,14 +555,16 @@ def generated_items(seed, n):
     cols = sorted(set(c1 + c2))
     fresh = [x for x in NEW if x not in cols]
     # the columns that hold the conditions of the first text can be renamed and mentioned too
-    holders = sorted({e["col"] for e in doc["entries"] if e["kind"] == "dc" and e["txt"] == 1})
+    holders = sorted({e["col"] for e in doc["entries"] if e["kind"] == "dc" and e["txt"] == 1 and e["self"] == t1})
     steps, live = [], {t1: list(c1) + holders, t2: list(c2)}
     if rnd.random() < 0.3:
       cols = cols + holders
     for _k in range(rnd.choice([1, 1, 1, 2, 2, 3])):
       t = rnd.choice([t1, t2])
       old = rnd.choice(live[t])
-      new = rnd.choice([x for x in fresh if x not in live[t]])
+      # new names are distinct within an item: a bulk colId update disambiguates equal new names even
+      # across tables, and then the rename that took place is not the one asked for
+      new = rnd.choice([x for x in fresh if x not in live[t1] + live[t2]])
       live[t][live[t].index(old)] = new
       steps.append({"t": t, "old": old, "new": new})
     path = rnd.choice(["RenameColumn", "colId", "label", "bulk"])
